@@ -65,7 +65,11 @@ POSITIONS = {
     'thmtitle': ('\\begin{{zzthm}}[{{H {X}}}]t\\end{{zzthm}}', False),
     'emph': ('e \\emph{{E {X}}} f', False),
     'doctitle': ('\\title{{W {X}}}\\author{{au}}\\maketitle body', False),
+    # text that stands alone in its node, after a raw-markup passage (html package) spelled with the very same characters
+    'afterraw': ('\\begin{{rawhtml}}<i class="r">raw</i>\\end{{rawhtml}} r \\texttt{{{X}}} s \\begin{{rawhtml}}&lt;\\end{{rawhtml}} '
+                 '\\textbf{{{X}}}', False),
 }
+RAW_TWINS = ['<i class="r">raw</i>', '&lt;']
 CONFIGS = {
     'h5': ('HTML5', {('general', 'theme'): 'default'}),
     'h5min': ('HTML5', {('general', 'theme'): 'minimal'}),
@@ -80,12 +84,13 @@ CONFIGS = {
 def document(fills):
     """fills: {position: text to insert (already LaTeX-spelled)}; unfilled positions are absent"""
     body = []
-    order = ['doctitle', 'para', 'sectitle', 'subtitle', 'parenttitle', 'caption', 'footnote', 'item', 'term', 'cell', 'verbatim', 'verb',
+    order = ['doctitle', 'afterraw', 'para', 'sectitle', 'subtitle', 'parenttitle', 'caption', 'footnote', 'item', 'term', 'cell', 'verbatim', 'verb',
              'quote', 'thmtitle', 'emph']
     for p in order:
         if p in fills:
             body.append(POSITIONS[p][0].format(X=fills[p]))
-    return ('\\documentclass{article}\\newtheorem{zzthm}{Theorem}\\begin{document}' + '\n\n'.join(body) +
+    pre = '\\usepackage{html}' if 'afterraw' in fills else ''
+    return ('\\documentclass{article}' + pre + '\\newtheorem{zzthm}{Theorem}\\begin{document}' + '\n\n'.join(body) +
             '\n\n\\section{Z}end\\end{document}')
 
 
@@ -297,7 +302,7 @@ def run(tier, seed, rep):
     cases = []
     for cfgname in CONFIGS:
         for pos in POSITIONS:
-            for pl in PAYLOADS:
+            for pl in (PAYLOADS if pos != 'afterraw' else RAW_TWINS + PAYLOADS[:4]):
                 for esc in (0, 1):
                     if quick and esc and not (cfgname == 'h5' or any(ord(c) > 127 for c in pl)):
                         continue
